@@ -6,7 +6,8 @@
    schemas = [s_bam; s_bah; s_txm; s_body; s_ghs; s_gmsg; s_warp; s_lreq; s_lresp; s_header]. *)
 From Common Require Import Bytes Outcome.
 From Scale Require Import Compact Types Spec Codec Total Cost WellTyped.
-From C33 Require Import Model Proofs.
+From Scale Require Import CostExcess.
+From C33 Require Import Model Proofs ProofsExcess.
 Local Open Scope N_scope.
 
 Theorem C33_schemas_wf : forallb wf_ty schemas = true.
@@ -74,6 +75,16 @@ Theorem C33_cost_partial : forall t bs, In t bytes_free_schemas ->
   decode_cost current t bs <= (ca t + cb t) * (1 + len bs).
 Proof. exact cost_schemas_current. Qed.
 Print Assumptions C33_cost_partial.
+
+(* round 5: on the current tree, for EVERY schema, a message that decodes cost at most the linear
+   bound plus the total length of the byte strings in the decoded message (the declared lengths
+   decodeBytes accepted): the excess of finding bytes-alloc, named.  Failing decodes: only
+   C33_cost_partial. *)
+Theorem C33_cost_excess : forall t bs v r, In t schemas ->
+  decode_res current t bs = Ok (v, r) ->
+  decode_cost current t bs <= (ca t + cb t) * (1 + len bs) + bytes_total v.
+Proof. exact cost_schemas_excess. Qed.
+Print Assumptions C33_cost_excess.
 
 Theorem C33_cost_constants : forallb (fun t => ca t + cb t <=? 54500) schemas = true.
 Proof. exact cost_constants. Qed.
